@@ -553,7 +553,10 @@ class C12:
                 reduced = []
                 for (ri, cells, fpos) in expected:
                     emptied = [pos for pos, f in fpos.items() if strip(f['text']) == '']
-                    rest_null = all((c in ('.', '*', '')) for pos, c in enumerate(cells) if pos not in emptied)
+                    # a cell already reported as shortened exports whatever its prefix token is, possibly a placeholder
+                    masked_null = [pos for pos in fpos if (ri, plan_rows[ri][1][pos]) in masked
+                                   and tok_nullish(bad_doc.tree.stages[ri + 1][plan_rows[ri][1][pos]].token)]
+                    rest_null = all((c in ('.', '*', '')) for pos, c in enumerate(cells) if pos not in emptied and pos not in masked_null)
                     if emptied and rest_null:
                         for pos in emptied:
                             ci = plan_rows[ri][1][pos]
